@@ -131,7 +131,7 @@ def replay(obligation, model, rep):
 
 
 TRUSTED = ["the reference preprocessor in contracts/c08_ref.py (written from ISO C 6.10.1, independent of fortls)"]
-ASSUMPTIONS = ["macro redefinition keeps the first definition (fortls's documented behaviour) and is outside the generator; "
+ASSUMPTIONS = ["a macro redefinition replaces the earlier body (what a C preprocessor does after its warning); "
                "`#if` expressions are over defined(), !, &&, ||, parentheses, integer literals and comparisons"]
 RESIDUAL = ("no unbounded proof of the conditional state machine: the inductive invariant of DESIGN 3/C08 was not "
             "attempted within the VC generator's subset, the exhaustive small-scope comparison stands in (bounded); "
